@@ -88,6 +88,15 @@ fn fault_for(st: &State, call: u64) -> Option<FaultKind> {
 
 impl Read for Reader {
     fn read(&mut self, buf: &mut [u8]) -> io::Result<usize> {
+        let w = crate::alloc::pause();
+        let r = self.read_inner(buf);
+        crate::alloc::resume(w);
+        r
+    }
+}
+
+impl Reader {
+    fn read_inner(&mut self, buf: &mut [u8]) -> io::Result<usize> {
         let mut st = self.st.borrow_mut();
         st.reads += 1;
         if st.interrupt_every != 0 && st.reads % st.interrupt_every == 0 {
@@ -146,6 +155,15 @@ impl Read for Reader {
 
 impl Seek for Reader {
     fn seek(&mut self, to: SeekFrom) -> io::Result<u64> {
+        let w = crate::alloc::pause();
+        let r = self.seek_inner(to);
+        crate::alloc::resume(w);
+        r
+    }
+}
+
+impl Reader {
+    fn seek_inner(&mut self, to: SeekFrom) -> io::Result<u64> {
         let mut st = self.st.borrow_mut();
         let call = st.calls;
         st.calls += 1;
